@@ -419,7 +419,7 @@ def h6(ctx, rid):
             if any(t in consumers_fn or (L.get(t, set()) & consumers_fn) for t in tg):
                 cons.append(c)
         def covers_quarantine(sd):
-            ogs = core.origins_deep(prog, f, sd.args[1], depth=3) if len(sd.args) > 1 else []
+            ogs = deep_arith(f, sd.args[1]) if len(sd.args) > 1 else []      # through `match max { Some(id) => id + 1, None => 0 }`
             return any(o.kind == 'call' and o.data.target == 'blob::file_name::FileName::id' and 'corrupted' in o.data.fn.id for o in ogs)
         full = [sd for sd in seeds if covers_quarantine(sd)]
         for c in cons:
